@@ -12,6 +12,12 @@ package main
 //	group            random lifetimes over all of the above
 //	group-meta-strict  (only when the finding C10-kafka-meta-cache-key is listed) the meta data handed to In must name
 //	                 the record's own partition and offset
+//	group-topics-directed / group-topics   the topics LIST itself: a name listed twice or three times with OTHER names
+//	                 behind the repeat ([a a logs], [a logs a b] — idByTopic keeps the last position of a name, Commit
+//	                 reads config.Topics at that position: both must see the list as it was configured), every
+//	                 permutation of a three-name list, names that are prefixes of one another (a / ab / a.b / a-b);
+//	                 every record of every topic is acknowledged one by one so that each Commit shows in kgo's marks and,
+//	                 after the tick / Stop, in the broker's committed offsets WHICH topic and partition it landed on
 
 import (
 	"bytes"
@@ -161,26 +167,146 @@ func c10GenGroup(c *hmain.Ctx) {
 		}
 	}
 
+	// ---- the topics list: repeats, permutations, prefixes (directed) -----------------------------
+	// every partition gets records of its own (distinct offsets and epochs per topic, so that a mark that lands under
+	// another name cannot coincide with a record of that name); lifetime 1 acknowledges every delivered record one by
+	// one, ticks, acknowledges again, Stop commits; lifetime 2 starts from what Kafka holds
+	topicLists := [][]string{
+		{"a", "a", "logs"}, {"a", "logs", "a", "b"}, {"logs", "a", "a"}, {"a", "a", "a", "b", "b", "logs"},
+		{"a", "b", "logs"}, {"a", "logs", "b"}, {"b", "a", "logs"}, {"b", "logs", "a"}, {"logs", "a", "b"}, {"logs", "b", "a"},
+		{"a", "ab", "a.b"}, {"a.b", "a", "ab"}, {"ab", "a", "a", "a-b", "a"},
+	}
+	for li, tl := range topicLists {
+		for mode := 0; mode < 2; mode++ {
+			if mode == 1 && li%3 != 0 {
+				continue // the real pipeline in front of Commit: every third list
+			}
+			bal := li % 5
+			b := &c10GBuild{topics: tl, cfg: [11]int{1, bal, (li + mode) % 2, []int{1, 2, 256}[li%3], 1 + li%5, li % 2, li % 3, mode, 0, 0, 0}}
+			npOf := map[string]int{}
+			for _, t := range tl {
+				if npOf[t] == 0 {
+					npOf[t] = 1 + len(npOf)%2 + (li+len(npOf))%2
+				}
+			}
+			first := map[string]bool{}
+			n := 0
+			for ti, t := range tl {
+				b.nps = append(b.nps, npOf[t])
+				if first[t] {
+					continue
+				}
+				first[t] = true
+				for p := 0; p < npOf[t]; p++ {
+					// offsets of different (topic, partition) logs never meet: base 100 * (index of the log)
+					base := int64(100 * (len(first)*3 + p))
+					b.init = append(b.init, c10GrFetch(ti, p, c10Rec3(base, int64(ti), 0), c10Rec3(base+1, int64(ti), 0), c10Rec3(base+3, int64(ti)+1, 0)))
+					n += 3
+				}
+			}
+			ks := make([]int, n)
+			for k := range ks {
+				ks[k] = (k*7 + li) % n // a permutation of 0..n-1 when 7 does not divide n; repeats otherwise
+			}
+			b.commit(ks...)
+			b.tick()
+			b.produce(c10GrFetch(len(tl)-1, 0, c10Rec3(9000, 7, 0)), c10GrFetch(0, 0, c10Rec3(9100, 8, 0)))
+			b.commit(ks[:n/2]...)
+			b.commit(n, n+1, 0)
+			b.end(0)
+			b.commit(0, 1)
+			b.end(0)
+			c.W.Count("group_topics_list_directed")
+			do("group-topics-directed", b, true)
+		}
+	}
+
 	// ---- random ------------------------------------------------------------------------------
 	names := []string{"a", "b", "logs", "a.b-c_d", "topic-with-a-long-name-0123456789"}
-	gen := func(stream string, meta int) {
-		b := &c10GBuild{}
-		nt := r.Range(1, 3)
-		for len(b.topics) < nt {
-			n := names[r.Intn(len(names))] + strconv.Itoa(r.Intn(2))
+	// topic lists for the stream group-topics: 2..5 positions over a small pool of names that are prefixes / near
+	// misses of one another, so that repeats (with other names behind them) are the rule
+	pool := []string{"a", "ab", "a.b", "a-b", "b", "logs", "log"}
+	listWithRepeats := func(b *c10GBuild) {
+		k := r.Range(2, 3) // distinct names
+		var ns []string
+		for len(ns) < k {
+			n := pool[r.Intn(len(pool))]
 			dup := false
-			for _, t := range b.topics {
+			for _, t := range ns {
 				dup = dup || t == n
 			}
 			if !dup {
-				b.topics = append(b.topics, n)
-				b.nps = append(b.nps, r.Range(1, 3))
+				ns = append(ns, n)
 			}
 		}
-		if r.Chance(1, 10) { // a name listed twice: idByTopic keeps the last index
-			b.topics = append(b.topics, b.topics[0])
-			b.nps = append(b.nps, b.nps[0])
-			c.W.Count("group_duplicate_topic_name")
+		np := map[string]int{}
+		for _, n := range ns {
+			np[n] = r.Range(1, 3)
+		}
+		// every name at least once, then up to three more positions, shuffled
+		l := append([]string(nil), ns...)
+		for j := r.Range(0, 3); j > 0; j-- {
+			l = append(l, ns[r.Intn(len(ns))])
+		}
+		for i := len(l) - 1; i > 0; i-- {
+			j := r.Intn(i + 1)
+			l[i], l[j] = l[j], l[i]
+		}
+		// would the list still resolve when somebody compacted it in place (dropped repeats, kept the slice)? the last
+		// position of a name must then still hold that name — the lists where it does not are the ones that tell
+		shifted := false
+		var compact []string
+		for _, t := range l {
+			dup := false
+			for _, u := range compact {
+				dup = dup || u == t
+			}
+			if !dup {
+				compact = append(compact, t)
+			}
+		}
+		for j, t := range l {
+			last := true
+			for _, u := range l[j+1:] {
+				last = last && u != t
+			}
+			if last && j < len(compact) && compact[j] != t {
+				shifted = true
+			}
+		}
+		if shifted {
+			c.W.Count("group_topics_repeat_with_other_name_behind")
+		}
+		if len(l) == len(ns) {
+			c.W.Count("group_topics_permutation_without_repeat")
+		}
+		for _, t := range l {
+			b.topics = append(b.topics, t)
+			b.nps = append(b.nps, np[t])
+		}
+	}
+	gen := func(stream string, meta int) {
+		b := &c10GBuild{}
+		if stream == "group-topics" {
+			listWithRepeats(b)
+		} else {
+			nt := r.Range(1, 3)
+			for len(b.topics) < nt {
+				n := names[r.Intn(len(names))] + strconv.Itoa(r.Intn(2))
+				dup := false
+				for _, t := range b.topics {
+					dup = dup || t == n
+				}
+				if !dup {
+					b.topics = append(b.topics, n)
+					b.nps = append(b.nps, r.Range(1, 3))
+				}
+			}
+			if r.Chance(1, 10) { // a name listed twice: idByTopic keeps the last index
+				b.topics = append(b.topics, b.topics[0])
+				b.nps = append(b.nps, b.nps[0])
+				c.W.Count("group_duplicate_topic_name")
+			}
 		}
 		mode := 0
 		if r.Chance(1, 3) {
@@ -281,6 +407,9 @@ func c10GenGroup(c *hmain.Ctx) {
 	}
 	for i := 0; i < 120*c.Scale; i++ {
 		gen("group", r.Intn(2))
+	}
+	for i := 0; i < 30*c.Scale; i++ {
+		gen("group-topics", r.Intn(2))
 	}
 	if c10KnownListed(c10MetaFinding) {
 		for i := 0; i < 20*c.Scale; i++ {
